@@ -1,6 +1,6 @@
 use std::io;
 use std::iter::{self, FusedIterator};
-use std::net::{IpAddr, TcpStream, ToSocketAddrs};
+use std::net::{IpAddr, SocketAddr, TcpStream, ToSocketAddrs};
 use std::sync::mpsc::channel;
 use std::thread;
 use std::time::{Duration, Instant};
@@ -19,13 +19,13 @@ pub fn connect(host: &Host<&str>, port: u16, timeout: Duration, deadline: Option
             crate::verif_hooks::resolve(domain, port).unwrap_or_default()
         }
         Host::Domain(domain) => (domain, port).to_socket_addrs()?.collect(),
-        Host::Ipv4(ip) => return TcpStream::connect_timeout(&(IpAddr::V4(ip), port).into(), timeout),
-        Host::Ipv6(ip) => return TcpStream::connect_timeout(&(IpAddr::V6(ip), port).into(), timeout),
+        Host::Ipv4(ip) => return connect_one(&(IpAddr::V4(ip), port).into(), timeout, deadline),
+        Host::Ipv6(ip) => return connect_one(&(IpAddr::V6(ip), port).into(), timeout, deadline),
     };
 
     if let [addr] = &addrs[..] {
         debug!("DNS returned only one address, using fast path");
-        return TcpStream::connect_timeout(addr, timeout);
+        return connect_one(addr, timeout, deadline);
     }
 
     let ipv4 = addrs.iter().filter(|a| a.is_ipv4());
@@ -66,11 +66,7 @@ pub fn connect(host: &Host<&str>, port: u16, timeout: Duration, deadline: Option
         thread::spawn(move || {
             debug!("trying to connect to {}", addr);
 
-            let res = match deadline.map(|deadline| deadline.checked_duration_since(Instant::now())) {
-                None => TcpStream::connect_timeout(&addr, timeout),
-                Some(Some(timeout1)) => TcpStream::connect_timeout(&addr, timeout.min(timeout1)),
-                Some(None) => Err(io::ErrorKind::TimedOut.into()),
-            };
+            let res = connect_one(&addr, timeout, deadline);
 
             let _ = tx.send((addr, res));
         });
@@ -101,6 +97,15 @@ pub fn connect(host: &Host<&str>, port: u16, timeout: Duration, deadline: Option
     );
 
     Err(first_err.unwrap_or_else(|| io::Error::new(io::ErrorKind::Other, "no DNS entries found")))
+}
+
+/// One connection attempt, bounded by the connect timeout and by what is left until the deadline of the request.
+fn connect_one(addr: &SocketAddr, timeout: Duration, deadline: Option<Instant>) -> io::Result<TcpStream> {
+    match deadline.map(|deadline| deadline.checked_duration_since(Instant::now())) {
+        None => TcpStream::connect_timeout(addr, timeout),
+        Some(Some(timeout1)) => TcpStream::connect_timeout(addr, timeout.min(timeout1)),
+        Some(None) => Err(io::ErrorKind::TimedOut.into()),
+    }
 }
 
 fn intertwine<T, A, B>(mut ita: A, mut itb: B) -> impl Iterator<Item = T>
